@@ -520,3 +520,13 @@ def loading_restores_every_stored_parameter(ctx):
             ctx.ok(f'{f.qualname}:every stored value is set', l, f'iterates `{src(it)[:80]}`', f)
         else:
             ctx.undecided(f'{f.qualname}:every stored value is set', l, f'`{src(it)[:80]}`: origin of the iterated values not recognised', f)
+
+
+@rule('C17.R9', min_instances=9)
+def stored_values_come_back_through_the_member_codec(ctx):
+    """shared with C02.R2: what saveParameters writes is export_value() of each persistent parameter, what loadPersistentData
+    applies is import_value() of the stored form - for container datatypes both have to go through the SAME-named method of
+    the member datatypes (an array of scaled integers imported with the member's __call__ comes back multiplied by 1/scale, an
+    array of blobs is dropped as unusable)"""
+    from sa.rules import c02
+    c02.container_delegation(ctx)
